@@ -43,7 +43,11 @@ func NewHTTPResponseBody(
 			return HTTPResponseBody{}, adoptErrorForResponseBody(d, err)
 		}
 	case SerializeFormatPlainString:
-		s, err = NewExchangeRegexSchema(b)
+		var rs *ExchangeRegexSchema
+		if rs, err = NewExchangeRegexSchema(b); err == nil {
+			err = rs.Validate()
+		}
+		s = rs
 		if err != nil {
 			return HTTPResponseBody{}, adoptErrorForResponseBody(d, err)
 		}
